@@ -248,7 +248,10 @@ class RefWriter(object):
 
             ind = op.get('indent', 4)
 
-            if not isinstance(ind, int) or isinstance(ind, bool) or ind < 0:
+            # indent=None is the documented "no indentation, no indent
+            # option"
+            if ind is not None and (not isinstance(ind, int) or
+                                    isinstance(ind, bool) or ind < 0):
                 return REJECT_ARG
         elif name == 'write_meta':
             md = op.get('metadata')
